@@ -2930,6 +2930,9 @@ public:
         regs.ext[3] = a.Signed16();
     }
 
+#ifdef TEAKRA_VERIF
+    friend struct ::TeakraVerifAccess;
+#endif
 private:
     CoreTiming& core_timing;
     RegisterState& regs;
